@@ -35,6 +35,12 @@ TABLE_TEMPLATES = {
     # the binder is mentioned by quoted code *inside a splice* of the template (a quotation nested in an escape)
     "let_nested_quote": "`{ { let {B} = 10\n $(idc(`({B} * 2))) } + $c }",
     "lambda_nested_quote": "`{ (|{B}| $(idc(`({B} + 1))))(10) + $c }",
+    # the hole stands inside the binder's own definition: a `let` does not bind there at all; a `letrec` whose
+    # definition does not call itself is an ordinary definition (the use site's name must not become a recursive call)
+    "let_rhs_hole": "`{ { let {B} = $c + 1\n {B} * 2 } }",
+    "fnlet_rhs_hole": "`{ { let {B} = |v| { v + $c }\n {B}(5) } }",
+    "letrec_rhs_hole": "`{ { letrec {B} = |x| { if (x > 0.5) { $c } else { 0 } }\n {B}(1) } }",
+    "letrec_rhs_hole_nested": "`{ { letrec {B} = |x| { let w = x * 2\n (|z| z + $c)(w) }\n {B}(1) } }",
     "letrec_nested_quote": "`{ { letrec {B} = |n| { if (n > 0) { n + {B}(n - 1) } else { 0 } }\n $(idc(`({B}(3)))) } + $c }",
 }
 TABLE_USES = {
